@@ -18,7 +18,8 @@
 (* Job table      info[j] = [cu, hu : unit name or "sync",                 *)
 (*                           hc : TRUE when the hash stage runs first,     *)
 (*                           len, hlen]                                    *)
-(* Unit table     U[name] = [fam : "simple" | "hmac", L, blk]              *)
+(* Unit table     U[name] = [fam : "simple" | "hmac" | "phased", L, blk,   *)
+(*                           pf : phase rule of a phased unit]             *)
 (***************************************************************************)
 EXTENDS Naturals, Sequences, FiniteSets
 
@@ -29,14 +30,25 @@ CONSTANTS U,        \* unit table
 OS(n) == INSTANCE OooLanes WITH L <- n, MAXLEN <- 65535
 OH(n, b) == INSTANCE OooHmac WITH L <- n, MAXLEN <- 65535, BLK <- b,
                                   PADMIN <- IF b = 128 THEN 17 ELSE 9, Track <- FALSE
+OP(n) == INSTANCE OooPhased WITH L <- n, MAXLEN <- 65535
 NOJ == 0
 
-UEmpty(un) == IF U[un].fam = "hmac" THEN OH(U[un].L, U[un].blk)!EmptyLanes ELSE OS(U[un].L)!EmptyLanes
+\* phase lengths of a job in a "phased" unit (U[un].pf names the rule); len in bytes
+CeilDiv(a, b) == (a + b - 1) \div b
+PhasesOf(pf, len) ==
+    CASE pf = "cmac" -> (IF len = 0 THEN <<16>> ELSE <<(CeilDiv(len, 16) - 1) * 16, 16>>)   \* message blocks, then M_last
+      [] pf = "xcbc" -> (IF len <= 16 THEN <<0, 16>> ELSE <<(CeilDiv(len, 16) - 1) * 16, 16>>)
+      [] OTHER -> <<len>>
+
+UEmpty(un) == IF U[un].fam = "hmac" THEN OH(U[un].L, U[un].blk)!EmptyLanes
+              ELSE IF U[un].fam = "phased" THEN OP(U[un].L)!EmptyLanes ELSE OS(U[un].L)!EmptyLanes
 USubmit(un, st, j, len) ==
-    IF U[un].fam = "hmac" THEN LET r == OH(U[un].L, U[un].blk)!OSubmit(st, j, len) IN [st |-> r.st, ret |-> r.ret]
+    IF U[un].fam = "phased" THEN LET r == OP(U[un].L)!OSubmit(st, j, PhasesOf(U[un].pf, len)) IN [st |-> r.st, ret |-> r.ret]
+    ELSE IF U[un].fam = "hmac" THEN LET r == OH(U[un].L, U[un].blk)!OSubmit(st, j, len) IN [st |-> r.st, ret |-> r.ret]
     ELSE LET r == OS(U[un].L)!OSubmit(st, j, len) IN [st |-> r.st, ret |-> r.ret]
 UFlush(un, st) ==
-    IF U[un].fam = "hmac" THEN LET r == OH(U[un].L, U[un].blk)!OFlush(st) IN [st |-> r.st, ret |-> r.ret]
+    IF U[un].fam = "phased" THEN LET r == OP(U[un].L)!OFlush(st) IN [st |-> r.st, ret |-> r.ret]
+    ELSE IF U[un].fam = "hmac" THEN LET r == OH(U[un].L, U[un].blk)!OFlush(st) IN [st |-> r.st, ret |-> r.ret]
     ELSE LET r == OS(U[un].L)!OFlush(st) IN [st |-> r.st, ret |-> r.ret]
 UBusyJobs(un, st) == { st.jil[l] : l \in 0 .. U[un].L - 1 } \ {NOJ}
 
